@@ -50,7 +50,7 @@ Inductive inner_res := Found | HitEnd | Mismatch.
 
 (* for (sIt = sFirst;; ++it, ++sIt) { if (sIt == sLast) return first; if (it == last) return last;
                                       if (!pred( *it, *sIt)) break; } *)
-Fixpoint search_inner (pred : A -> A -> bool) (l s : list A) : inner_res :=
+Fixpoint search_inner (pred : A -> A -> bool) (l s : list A) {struct s} : inner_res :=
   match s with
   | [] => Found
   | y :: s' =>
@@ -137,7 +137,7 @@ Fixpoint for_each_m {St : Type} (f : St -> A -> St * A) (s : St) (l : list A) : 
   end.
 
 (* for (Size i = 0; i < n; ++first, ++i) f( *first); return first;   n is a signed Size *)
-Fixpoint for_each_n_loop {St : Type} (f : St -> A -> St * A) (s : St) (l : list A) (k : nat)
+Fixpoint for_each_n_loop {St : Type} (f : St -> A -> St * A) (s : St) (l : list A) (k : nat) {struct k}
   : res (nat * St * list A) :=
   match k with
   | O => Ok (0, s, l)
